@@ -31,7 +31,10 @@ TRUSTED = [
     "synced_collections 1.0.1 and the copy/pickle protocol are modelled, not verified",
     "gzip framing of the persistent cache file: only the decoded mapping is compared",
 ]
-ASSUMPTIONS = ["copy.copy is taken after the handle's state point was accessed (the early-copy defect is C04's finding 2)",
+ASSUMPTIONS = ["random sequences: after job.move() the remaining shallow copies of the moved handle are not used for state "
+               "point changes (finding 7 is exercised by a fixed script and by the exhaustive words, where the moved handle "
+               "is the first of its cell)",
+               "copy.copy is taken after the handle's state point was accessed (the early-copy defect is C04's finding 2)",
                "a handle is pickled only while no shallow copy of it exists (RecursionError otherwise)",
                "values that compare == in Python but differ in type (1 / 1.0 / True) are not mixed (C04's finding 3)",
                "open_job(id=...) is only asked for ids that exist in the workspace or never existed",
@@ -173,6 +176,12 @@ def random_ops(desc, W):
         if n == 0:
             return None
         cands = list(range(max(0, n - 4), n)) if rng.random() < 0.7 else list(range(n))
+        if pred is sp_safe:
+            # random sequences never change the state point through a cell one of whose handles was moved away
+            # (finding 7; the fixed scripts and the exhaustive words do exercise it)
+            cands = [i for i in cands if i not in orphaned] or [i for i in range(n) if i not in orphaned]
+            if not cands:
+                return None
         if pred is not None and rng.random() < 0.92:
             good = [i for i in cands if pred(i)] or [i for i in range(n) if pred(i)]
             if good:
